@@ -223,7 +223,7 @@ class Engine(object):
     def lift_instance(self, o):
         key = id(o)
         if key in self.conc:
-            return V(mkR(self.conc[key][0]), TypeSpec('obj', (type(o),)))
+            return V(mkR(self.conc[key][0]), TypeSpec('obj', (type(o),), exact=True))
         ref = self.conc_next
         self.conc_next -= 1
         self.conc[key] = (ref, o)
@@ -243,7 +243,7 @@ class Engine(object):
                 lv = self.lift_instance(v)
             if lv is not None:
                 self.assumes.append(z3.Select(self.init_arr(k), ref) == lv.t)
-        return V(mkR(ref), TypeSpec('obj', (type(o),)))
+        return V(mkR(ref), TypeSpec('obj', (type(o),), exact=True))
 
     # ------------------------------------------------------------------ truthiness / equality
     def truthy(self, st, v):
